@@ -248,7 +248,7 @@ def main(tier):
                        'tanf/sinf/asinf/sqrt are uninterpreted functions in the real-domain runs (same symbol in both maps)', 'records across output flushes: over all paths of main\'s loop (<= 2/3 iterations) every output block and the epilogue flush the record right after getPastModulation and the last flush follows the last RF apply; noise statistics are outside']
     chk.stubs = ['normal_distribution::operator(): fresh real / fresh finite float per draw', 'random_device: fixed seed', 'updateSM, KickMap::apply: no-op (where stated)']
     chk.replayer = replayer(bld)
-    chk.add(run_jobs(jobs, budget=900 if tier == 'quick' else 3000))
+    _rs = run_jobs(jobs, budget=900 if tier == 'quick' else 3000); _rs.append(mainloop.loop_witness(_rs, 'C19')); chk.add(_rs)
     chk.finish()
 
 if __name__ == '__main__':
